@@ -19,10 +19,6 @@ variable {V : Type}
 
 /-! ### eviction as an equation -/
 
-/-- does the delivery `e` (object, notification) destroy what is cached under `nm` on `o`? -/
-def hitB (T : Tables) (regs : List (String × String × Destr)) (e : Obj × String) (o : Obj) (nm : String) : Bool :=
-  decide (e.1 = o) && (facsOf T regs o.cls).any fun p => decide (p.1 = nm) && p.2.hit e.2
-
 theorem Cache.get?_evict_eq (facs : List (String × Destr)) (c : Cache V) (n nm : String) (sk : SubKey) :
     (Cache.evict facs c n).get? nm sk =
       if facs.any (fun p => decide (p.1 = nm) && p.2.hit n) then none else c.get? nm sk := by
